@@ -67,6 +67,10 @@ def value_of(name, vc, is_bool):
         return True
     if vc == "zero":
         return 0
+    if vc == "empty":
+        return ""
+    if vc == "hostile":
+        return "-\u00e9 x\ny"
     return True if is_bool else VALID.get(name, "x")
 
 
@@ -84,7 +88,8 @@ def replay(cases_path, zerv_bin, report_path):
     for line in open(cases_path):
         case = json.loads(line)
         fn = case["fn"]
-        want = [text(a) for a in case["argv"]]
+        # TLC prints the empty sequence as an empty JSON object
+        want = [text(a) if isinstance(a, list) else "" for a in case["argv"]]
         kwargs = {}
         for s in case["set"]:
             is_bool = str(sigs[fn].parameters[s["kw"]].annotation).startswith("bool")
@@ -143,6 +148,20 @@ def replay(cases_path, zerv_bin, report_path):
                  ("version", [], {"source": "none", "tag_version": "garbage!"}), ("render", ["1.2"], {"input_format": "semver"}),
                  ("flow", [], {"source": "none", "tag_version": "1.2.3", "hash_branch_len": 11}),
                  ("version", [], {"source": "stdin", "stdin": "(not ron"}), ("version", [], {"source": "none", "tag_version": "1.2.3", "core": "9=1"})]
+    # stdin is handed to the command: the same document piped to the binary directly
+    ron = ("(schema:(core:[var(Major),var(Minor),var(Patch)],extra_core:[var(Epoch),var(PreRelease),var(Post),var(Dev)],build:[var(BumpedBranch)]),"
+           "vars:(major:Some(4),minor:Some(5),patch:Some(6),post:Some(7),bumped_branch:Some(\"Gr\u00f6\u00dfe/x\")))")
+    for of in ("semver", "pep440", "zerv"):
+        n += 1
+        nontrivial += 1
+        direct = subprocess.run([zerv_bin, "version", "--source", "stdin", "--output-format", of], input=ron, capture_output=True, text=True)
+        try:
+            ret = zerv.version(source="stdin", stdin=ron, output_format=of)
+        except Exception as e:  # noqa: BLE001
+            ret = "<exception %r>" % e
+        if direct.returncode != 0 or ret != direct.stdout.strip():
+            mismatches.append({"key": "C18:return-value", "call": "version(source='stdin', stdin=<ron>, output_format=%r)" % of,
+                               "expected": direct.stdout.strip()[:300], "observed": ret[:300]})
     for fn, pos, kw in must_fail:
         n += 1
         try:
